@@ -150,7 +150,7 @@ func c17Gen(t *rapid.T) c17Case {
 	switch rapid.IntRange(0, 9).Draw(t, "kind") {
 	case 0, 1, 2, 3:
 		c := c10Gen(t)
-		if c.Source == "abaco" || c.Source == "udp" {
+		if c.Source == "abaco" || c.Source == "udp" || c.Source == "udp2" {
 			c.Dwell = 130 // several 50 ms read ticks per run: reader, block assembly and core loop all overlap
 		} else if rapid.Bool().Draw(t, "dwell") {
 			c.Dwell = 15
